@@ -160,6 +160,51 @@ func loadAndCheck(raw []byte, m DebModel, members []ArMember, viaFile bool, inde
 			return nil, errf("ArContent[%q] yields %d bytes (err %v), the member has %d", mem.Name, len(b), err, len(mem.Data))
 		}
 		ld.members[mem.Name] = b
+		// the member's own view of itself: tarballs say they are tarballs and unpack to the same
+		// listing as the model, the format marker does not
+		isTar := strings.HasPrefix(mem.Name, "control.tar") || strings.HasPrefix(mem.Name, "data.tar")
+		if mem.Name == "debian-binary" || isTar {
+			if e.IsTarfile() != isTar {
+				return nil, errf("ArContent[%q].IsTarfile() = %v", mem.Name, e.IsTarfile())
+			}
+		}
+		if isTar {
+			tr, closer, err := e.Tarfile()
+			if err != nil {
+				return nil, errf("ArContent[%q].Tarfile(): %v", mem.Name, err)
+			}
+			wantFiles := m.DataFiles
+			if strings.HasPrefix(mem.Name, "control.") {
+				wantFiles = m.CtlFiles
+			}
+			n := 0
+			for {
+				h, err := tr.Next()
+				if err == io.EOF {
+					break
+				}
+				if err != nil {
+					closer.Close()
+					return nil, errf("ArContent[%q].Tarfile(): entry %d: %v", mem.Name, n, err)
+				}
+				if n >= len(wantFiles) || h.Name != wantFiles[n].Name {
+					closer.Close()
+					return nil, errf("ArContent[%q].Tarfile(): entry %d is %q, the member was built from %v", mem.Name, n, h.Name, tarNames(wantFiles))
+				}
+				if tarTypeName(h.Typeflag) == "reg" {
+					b, err := io.ReadAll(tr)
+					if err != nil || !bytes.Equal(b, wantFiles[n].Content) {
+						closer.Close()
+						return nil, errf("ArContent[%q].Tarfile(): %s has %d bytes (err %v), packaged %d", mem.Name, h.Name, len(b), err, len(wantFiles[n].Content))
+					}
+				}
+				n++
+			}
+			closer.Close()
+			if n != len(wantFiles) {
+				return nil, errf("ArContent[%q].Tarfile() lists %d entries, the member was built from %d", mem.Name, n, len(wantFiles))
+			}
+		}
 	}
 	return ld, nil
 }
@@ -312,7 +357,7 @@ func tarNames(fs []TarFile) []string {
 
 var specC14Load = Register(&Spec[DebCase]{
 	Prop: "C14", Name: "load",
-	Rule:  "format-2.0 .deb packages built by an independent builder from a model: control paragraph (C10 DEBIAN/control generator, incl. X- fields), control.tar with optional './' entry, './control' or 'control' at any position among md5sums/conffiles/postinst (containing look-alike 'Package:' text)/control.bak/triggers, data.tar of directories, regular files (0..4 KiB, sizes around the 512-byte tar block) and symlinks, control and data codec each from {none, gz, xz, bz2, lzma, zst} (xz members written with a 1, 8 or 16 MiB dictionary - 64 MiB too in the thorough tier), extra '_*' members after or between, optional GNU '/' name terminators; loaded with Load or LoadFile and twice more, and (LoadFile cases) once more keeping nothing but Deb.Data and the close function while the garbage collector runs before the payload is read. Oracle: typed control fields, unknown fields, SourceName, ControlExt/DataExt, Path, ArContent keys and bytes (in a third of the cases read through the indexed readers themselves, before the payload is touched), and the exact (name, type, content, link) sequence of the data tar equal the model; repeated loads agree. Non-trivial: control.tar has >= 2 files with control not first, or the two codecs differ; distinct by archive bytes.",
+	Rule:  "format-2.0 .deb packages built by an independent builder from a model: control paragraph (C10 DEBIAN/control generator, incl. X- fields), control.tar with optional './' entry, './control' or 'control' at any position among md5sums/conffiles/postinst (containing look-alike 'Package:' text)/control.bak/triggers, data.tar of directories, regular files (0..4 KiB, sizes around the 512-byte tar block) and symlinks, control and data codec each from {none, gz, xz, bz2, lzma, zst} (xz members written with a 1, 8 or 16 MiB dictionary - 64 MiB too in the thorough tier), extra '_*' members after or between, optional GNU '/' name terminators; loaded with Load or LoadFile and twice more, and (LoadFile cases) once more keeping nothing but Deb.Data and the close function while the garbage collector runs before the payload is read. Oracle: typed control fields, unknown fields, SourceName, ControlExt/DataExt, Path, ArContent keys and bytes (in a third of the cases read through the indexed readers themselves, before the payload is touched), IsTarfile() / Tarfile() of the indexed control and data members (same listing and contents as the model), and the exact (name, type, content, link) sequence of the data tar equal the model; repeated loads agree. Non-trivial: control.tar has >= 2 files with control not first, or the two codecs differ; distinct by archive bytes.",
 	Check: checkDebCase,
 })
 
